@@ -424,6 +424,11 @@ func checkC15(cc any) *ev.Verdict {
 			}
 			return v.Failf(class, "%s layout: %q: %s", l.name, p.Text, d)
 		}
+		// containment as the repository's own Range.Contains judges it: every child lies
+		// within its parent, the positions just outside the parent do not
+		if msg := containmentViolation(got); msg != "" {
+			return v.Failf("containment", "%s layout: %q: %s", l.name, p.Text, msg)
+		}
 		if gen.HasNonASCII(p.Text) {
 			nonASCII = true
 		}
@@ -433,4 +438,118 @@ func checkC15(cc any) *ev.Verdict {
 		v.Label("non-ascii")
 	}
 	return v
+}
+
+func toRange(sp *gen.Span) verifapi.Range {
+	return verifapi.Range{Start: verifapi.Position{Line: sp.SL, Character: sp.SC}, End: verifapi.Position{Line: sp.EL, Character: sp.EC}}
+}
+
+// containmentViolation walks the (converted) real tree and asks Range.Contains whether
+// each child's first and last position lie in its parent.
+func containmentViolation(s *gen.Script) string {
+	msg := ""
+	check := func(what string, parent, child *gen.Span) {
+		if msg != "" || parent == nil || child == nil {
+			return
+		}
+		pr := toRange(parent)
+		for _, pos := range []verifapi.Position{{Line: child.SL, Character: child.SC}, {Line: child.EL, Character: child.EC}} {
+			if !pr.Contains(pos) {
+				msg = fmt.Sprintf("%s: position %d:%d of a child (%d:%d-%d:%d) is not contained in its parent's range %d:%d-%d:%d", what, pos.Line, pos.Character, child.SL, child.SC, child.EL, child.EC, parent.SL, parent.SC, parent.EL, parent.EC)
+				return
+			}
+		}
+		if parent.SC > 0 && pr.Contains(verifapi.Position{Line: parent.SL, Character: parent.SC - 1}) {
+			msg = fmt.Sprintf("%s: the position just before the range %d:%d-%d:%d is reported as inside it", what, parent.SL, parent.SC, parent.EL, parent.EC)
+		}
+		if pr.Contains(verifapi.Position{Line: parent.EL, Character: parent.EC + 1}) {
+			msg = fmt.Sprintf("%s: the position just after the range %d:%d-%d:%d is reported as inside it", what, parent.SL, parent.SC, parent.EL, parent.EC)
+		}
+	}
+	var we func(parent *gen.Span, e *gen.Expr)
+	we = func(parent *gen.Span, e *gen.Expr) {
+		if e == nil {
+			return
+		}
+		check("expression", parent, e.Span)
+		we(e.Span, e.L)
+		we(e.Span, e.R)
+	}
+	var ws func(parent *gen.Span, x *gen.Src)
+	ws = func(parent *gen.Span, x *gen.Src) {
+		if x == nil {
+			return
+		}
+		check("source", parent, x.Span)
+		we(x.Span, x.Addr)
+		we(x.Span, x.Bound)
+		we(x.Span, x.Cap)
+		ws(x.Span, x.From)
+		for _, y := range x.Subs {
+			ws(x.Span, y)
+		}
+		for i := range x.Items {
+			check("source allotment item", x.Span, x.Items[i].Span)
+			check("portion", x.Items[i].Span, x.Items[i].Portion.Span)
+			ws(x.Items[i].Span, x.Items[i].From)
+		}
+	}
+	var wd func(parent *gen.Span, x *gen.Dst)
+	wk := func(parent *gen.Span, k *gen.KOD) {
+		if k == nil {
+			return
+		}
+		if k.Kept {
+			check("kept", parent, k.Span)
+			return
+		}
+		wd(parent, k.Dst)
+	}
+	wd = func(parent *gen.Span, x *gen.Dst) {
+		if x == nil {
+			return
+		}
+		check("destination", parent, x.Span)
+		we(x.Span, x.Addr)
+		for i := range x.Clauses {
+			check("destination clause", x.Span, x.Clauses[i].Span)
+			we(x.Clauses[i].Span, x.Clauses[i].Cap)
+			wk(x.Clauses[i].Span, &x.Clauses[i].To)
+		}
+		wk(x.Span, x.Remaining)
+		for i := range x.Items {
+			check("destination allotment item", x.Span, x.Items[i].Span)
+			check("portion", x.Items[i].Span, x.Items[i].Portion.Span)
+			wk(x.Items[i].Span, &x.Items[i].To)
+		}
+	}
+	wc := func(parent *gen.Span, c *gen.Call) {
+		if c == nil {
+			return
+		}
+		check("call", parent, c.Span)
+		check("function name", c.Span, c.NameSpan)
+		for _, a := range c.Args {
+			we(c.Span, a)
+		}
+	}
+	for i := range s.Vars {
+		d := &s.Vars[i]
+		check("declared type", d.Span, d.TypeSpan)
+		check("declared name", d.Span, d.NameSpan)
+		wc(d.Span, d.Origin)
+	}
+	for _, st := range s.Stmts {
+		check("sent value", st.Span, st.SentSpan)
+		we(st.SentSpan, st.Sent)
+		ws(st.Span, st.Src)
+		wd(st.Span, st.Dst)
+		we(st.Span, st.SaveFrom)
+		if st.Call != nil && st.Kind == gen.StCall {
+			for _, a := range st.Call.Args {
+				we(st.Span, a)
+			}
+		}
+	}
+	return msg
 }
